@@ -259,9 +259,9 @@ inductive Mode where
 deriving DecidableEq, Repr
 
 /-- does `load_from_path` restore key `k` (other than `model`, which is always restored)? -/
-def restores (file : Objs) (mode : Mode) (k : Key) : Bool :=
+def restores (objs file : Objs) (mode : Mode) (k : Key) : Bool :=
   let requested := match mode with
-    | .full | .onlyModels => k != 0
+    | .full | .onlyModels => k != 0 && (objs.lookup k).isSome      -- `for key in self.checkpointables`
     | .select keys => keys.contains k
   let skipped := match mode with
     | .onlyModels => !isModelKey k
@@ -275,21 +275,21 @@ deriving DecidableEq, Repr
 /-- a requested, stored key that the loader does not hold: `self.checkpointables[key]` raises `KeyError`
 (`model` itself is not in `self.checkpointables`) -/
 def missing (objs file : Objs) : Mode → Bool
-  | .select keys => keys.any fun k => restores file (.select keys) k && (k == 0 || (objs.lookup k).isNone)
+  | .select keys => keys.any fun k => restores objs file (.select keys) k && (k == 0 || (objs.lookup k).isNone)
   | _ => false
 
 /-- the loader's objects after `load_from_path` -/
 def loaded (objs file : Objs) (mode : Mode) : Objs :=
   objs.map fun kv =>
-    if kv.1 == 0 || restores file mode kv.1 then (kv.1, (file.lookup kv.1).getD kv.2) else kv
+    if kv.1 == 0 || restores objs file mode kv.1 then (kv.1, (file.lookup kv.1).getD kv.2) else kv
 
 /-- `load_from_path`: new states of the loader's objects, or the `KeyError` -/
 def load (objs file : Objs) (mode : Mode) : Except Err Objs :=
   if missing objs file mode then .error .keyError else .ok (loaded objs file mode)
 
 /-- the dict `load` returns: whatever was not consumed -/
-def leftover (file : Objs) (mode : Mode) : List Key :=
-  (file.filter fun kv => !(restores file mode kv.1)).map (·.1)
+def leftover (objs file : Objs) (mode : Mode) : List Key :=
+  (file.filter fun kv => !(restores objs file mode kv.1)).map (·.1)
 
 end Bundle
 
